@@ -398,8 +398,11 @@ class Grid(object):
 
         # Clip only if bounds are set (clipping integers with infinite
         # float bounds converts them to float64 and corrupts large values)
-        if self.mindata > -np.inf or self.maxdata < np.inf:
-            _value = np.clip(_value, self.mindata, self.maxdata)
+        # (an infinite bound is left out for the same reason)
+        vmin = self.mindata if self.mindata > -np.inf else None
+        vmax = self.maxdata if self.maxdata < np.inf else None
+        if vmin is not None or vmax is not None:
+            _value = np.clip(_value, vmin, vmax)
 
         self._data = _value.astype(self.dtype)
 
@@ -519,8 +522,10 @@ class Grid(object):
             raise ValueError(errmess)
 
         data = data.reshape((self.nrows, self.ncols))
-        if self.mindata > -np.inf or self.maxdata < np.inf:
-            data = np.clip(data, self.mindata, self.maxdata)
+        vmin = self.mindata if self.mindata > -np.inf else None
+        vmax = self.maxdata if self.maxdata < np.inf else None
+        if vmin is not None or vmax is not None:
+            data = np.clip(data, vmin, vmax)
 
         self._data = data.astype(self.dtype)
 
